@@ -71,23 +71,150 @@ func (k *checker) save1() {
 	k.save1On(fn, schemaFn, k.c.P.FuncName(fn))
 }
 
-func (k *checker) save1On(fn, schemaFn *ssa.Function, name string) {
-	rep := k.rep(fn.Pos())
-	// the bytes
-	var bytesCall *ssa.Call
+// onceWrapper describes `helper(func(){ body })`: a function literal handed to an in-package
+// helper that calls its function parameter exactly once on every path to a normal return
+// (a lock / recover / timing wrapper). The literal is then analysed as the body: it runs
+// exactly when the call of the helper runs.
+type onceWrapper struct {
+	call    *ssa.Call     // the call of the helper in the outer function
+	helper  *ssa.Function // the helper
+	body    *ssa.Function // the function literal
+	closure *ssa.MakeClosure
+	once    bool // the helper calls the parameter exactly once, unconditionally
+}
+
+// callsParamOnce: every path of h to a normal return calls parameter #j exactly once (directly or deferred).
+func callsParamOnce(h *ssa.Function, j int) bool {
+	if h == nil || h.Blocks == nil || j >= len(h.Params) {
+		return false
+	}
+	p := h.Params[j]
+	escapes := false
+	for _, r := range ssau.Refs(p) {
+		switch x := r.(type) {
+		case *ssa.Call:
+			if x.Common().Value != ssa.Value(p) {
+				escapes = true // handed on to somebody else
+			}
+		case *ssa.Defer:
+			if x.Common().Value != ssa.Value(p) {
+				escapes = true
+			}
+		case *ssa.DebugRef:
+		default:
+			escapes = true // stored, sent to a goroutine, compared, …
+		}
+	}
+	if escapes {
+		return false
+	}
+	vs := flow.AllVectors(h, flow.Vec{}, func(in ssa.Instruction, cur flow.Vec) []flow.Vec {
+		switch x := in.(type) {
+		case *ssa.Call:
+			if x.Common().Value == ssa.Value(p) {
+				return []flow.Vec{cur.Bump(0)}
+			}
+		case *ssa.Defer:
+			if x.Common().Value == ssa.Value(p) {
+				return []flow.Vec{cur.Bump(0)}
+			}
+		}
+		return nil
+	})
+	if len(vs) == 0 {
+		return false
+	}
+	for _, v := range vs {
+		if v[0] != 1 {
+			return false
+		}
+	}
+	return true
+}
+
+// wrappers lists the function literals fn hands to in-package helpers.
+func (k *checker) wrappers(fn *ssa.Function) []onceWrapper {
+	var out []onceWrapper
+	ssau.AllInstrs(fn, func(in ssa.Instruction) {
+		c, ok := in.(*ssa.Call)
+		if !ok || c.Common().IsInvoke() {
+			return
+		}
+		h := c.Common().StaticCallee()
+		if h == nil || h.Blocks == nil || funcPkgPath(h) != funcPkgPath(fn) {
+			return
+		}
+		for j, a := range c.Common().Args {
+			mc, isMC := a.(*ssa.MakeClosure)
+			if !isMC {
+				continue
+			}
+			body, _ := mc.Fn.(*ssa.Function)
+			if body == nil || body.Blocks == nil {
+				continue
+			}
+			out = append(out, onceWrapper{call: c, helper: h, body: body, closure: mc, once: callsParamOnce(h, j)})
+		}
+	})
+	return out
+}
+
+// freeProv: the provenance name, inside the literal, of the outer function's value v (captured through a cell).
+func freeProv(w onceWrapper, v ssa.Value) string {
+	for i, b := range w.closure.Bindings {
+		if i >= len(w.body.FreeVars) {
+			break
+		}
+		if b == v {
+			return "free:" + w.body.FreeVars[i].Name()
+		}
+		if cell, ok := b.(*ssa.Alloc); ok {
+			for _, r := range ssau.Refs(cell) {
+				if s, isS := r.(*ssa.Store); isS && s.Addr == ssa.Value(cell) && s.Val == v {
+					return "free:" + w.body.FreeVars[i].Name()
+				}
+			}
+		}
+	}
+	return ""
+}
+
+func containsCallTo(k *checker, fn, target *ssa.Function) *ssa.Call {
+	var hit *ssa.Call
 	ssau.AllInstrs(fn, func(in ssa.Instruction) {
 		if c, ok := in.(*ssa.Call); ok {
-			if cal := flow.Callee(c); cal != nil && k.c.P.SSA.FuncValue(cal) == schemaFn {
-				bytesCall = c
+			if cal := flow.Callee(c); cal != nil && k.c.P.SSA.FuncValue(cal) == target {
+				hit = c
 			}
 		}
 	})
+	return hit
+}
+
+func (k *checker) save1On(fn, schemaFn *ssa.Function, name string) {
+	rep := k.rep(fn.Pos())
+	body := fn
+	recv := fn.Params[0].Name()
+	var wrap *onceWrapper
+	// the bytes
+	bytesCall := containsCallTo(k, fn, schemaFn)
+	if bytesCall == nil {
+		// the body may live in a function literal run by a lock / recover wrapper
+		for _, w := range k.wrappers(fn) {
+			if c := containsCallTo(k, w.body, schemaFn); c != nil {
+				w := w
+				wrap, body, bytesCall = &w, w.body, c
+				if fp := freeProv(w, fn.Params[0]); fp != "" {
+					recv = fp
+				}
+			}
+		}
+	}
 	if bytesCall == nil {
 		rep.violate("SAVE-1", name+"#bytes", fn.Pos(), "Save does not obtain the bytes from App.Schema()")
 		return
 	}
-	recv := fn.Params[0].Name()
-	k.save1Writer(rep, fn, name, func(fi *fnInfo, v ssa.Value) bool {
+	k.save1Writer(rep, body, name, func(fi *fnInfo, v ssa.Value) bool {
 		return flow.StripAll(v) == ssa.Value(bytesCall) || fi.prov(v) == fi.prov(bytesCall)
 	},
 		func(fi *fnInfo, v ssa.Value) bool {
@@ -106,7 +233,19 @@ func (k *checker) save1On(fn, schemaFn *ssa.Function, name string) {
 			}
 			return true
 		}, 1)
-	k.save2(rep, fn, name)
+	if wrap == nil {
+		k.save2(rep, fn, name, fn.Params[0], recv)
+		return
+	}
+	// the literal always writes, the helper always runs the literal, Save always calls the helper
+	if !wrap.once {
+		rep.violate("SAVE-2", name+"#always-writes", ssau.PosOf(wrap.call),
+			"the saving code lives in a function literal handed to "+wrap.helper.Name()+"(), which does not call it exactly once on every path (conditional, repeated, stored or handed on): the write may not happen")
+		return
+	}
+	k.save2(rep, body, name, nil, recv)
+	k.noteSaveAct(fn, wrap.call)
+	k.save2(rep, fn, name, fn.Params[0], fn.Params[0].Name())
 }
 
 func (k *checker) noteSaveAct(fn *ssa.Function, in ssa.Instruction) {
@@ -122,7 +261,7 @@ func (k *checker) noteSaveAct(fn *ssa.Function, in ssa.Instruction) {
 // anything else — in particular a comparison of version counters ("unchanged since the
 // last save") — skips edits that do not move that counter (create/delete node, metadata,
 // parameter name/description) and is a violation.
-func (k *checker) save2(rep reporter, fn *ssa.Function, name string) {
+func (k *checker) save2(rep reporter, fn *ssa.Function, name string, recv ssa.Value, recvProv string) {
 	acts := k.saveActs[fn]
 	construct := name + "#always-writes"
 	if len(acts) == 0 {
@@ -130,7 +269,6 @@ func (k *checker) save2(rep reporter, fn *ssa.Function, name string) {
 		return
 	}
 	fi := newFnInfo(fn)
-	recv := fn.Params[0]
 	cut := map[flow.Edge]bool{}
 	for _, b := range fn.Blocks {
 		ifi := flow.IfOf(b)
@@ -144,7 +282,7 @@ func (k *checker) save2(rep reporter, fn *ssa.Function, name string) {
 		for _, sw := range [][2]ssa.Value{{bo.X, bo.Y}, {bo.Y, bo.X}} {
 			x, y := sw[0], sw[1]
 			// gs == nil
-			if x == ssa.Value(recv) && flow.IsNilConst(y) {
+			if ((recv != nil && x == recv) || fi.prov(x) == recvProv) && flow.IsNilConst(y) {
 				cut[flow.Edge{From: b, K: eqK}] = true
 			}
 			// gs.savePath == ""  /  len(gs.savePath) == 0
@@ -153,7 +291,7 @@ func (k *checker) save2(rep reporter, fn *ssa.Function, name string) {
 				if c, isC := x.(*ssa.Call); isC && ssau.Builtin(c) == "len" {
 					v = c.Call.Args[0]
 				}
-				if isStr(v.Type()) && strings.HasPrefix(fi.prov(v), recv.Name()+".") && !strings.ContainsAny(fi.prov(v), "()[]{}") {
+				if isStr(v.Type()) && strings.HasPrefix(fi.prov(v), recvProv+".") && !strings.ContainsAny(fi.prov(v), "()[]{}") {
 					cut[flow.Edge{From: b, K: eqK}] = true
 				}
 			}
@@ -220,6 +358,23 @@ func (k *checker) save3On(fn *ssa.Function, name string) {
 		}
 	})
 	if len(uses) == 0 {
+		// the saving code may live in a function literal run by a once-wrapper
+		for _, w := range k.wrappers(fn) {
+			has := false
+			ssau.AllInstrs(w.body, func(in ssa.Instruction) {
+				if c, ok := in.(*ssa.Call); ok {
+					for _, a := range c.Common().Args {
+						if isEnc(a.Type()) {
+							has = true
+						}
+					}
+				}
+			})
+			if has && w.once {
+				k.save3On(w.body, name)
+				return
+			}
+		}
 		rep.undecide("SAVE-3", construct, fn.Pos(), "no *jbtf.Encoder is passed to any call in the saving function")
 		return
 	}
@@ -261,6 +416,8 @@ func (k *checker) save3On(fn *ssa.Function, name string) {
 				return "loaded from the package-level variable " + g.Name()
 			}
 			return "loaded from memory that outlives the call"
+		case *ssa.FreeVar:
+			return "captured from the enclosing function (not followed)"
 		case *ssa.Parameter:
 			return "received as parameter " + x.Name() + " (its freshness is the caller's business)"
 		case *ssa.Global:
@@ -270,7 +427,7 @@ func (k *checker) save3On(fn *ssa.Function, name string) {
 	}
 	for i, u := range uses {
 		if why := stale(u, map[ssa.Value]bool{}); why != "" {
-			if strings.HasPrefix(why, "received as parameter") || why == "of unknown origin" {
+			if strings.HasPrefix(why, "received as parameter") || strings.HasPrefix(why, "captured from") || why == "of unknown origin" {
 				rep.undecide("SAVE-3", construct, ssau.PosOf(at[i]), "the encoder is "+why)
 			} else {
 				rep.violate("SAVE-3", construct, ssau.PosOf(at[i]),
